@@ -18,15 +18,15 @@ Qed.
 Lemma nty_eqb_eq a b : nty_eqb a b = true -> a = b.
 Proof. destruct a, b; cbn; congruence. Qed.
 
-Lemma num_typed_eq x y : nty_eqb (nt x) (nt y) && num_eq x y = true -> x = y.
+Lemma num_typed_eq x y : nty_eqb (nt x) (nt y) && num_eq x y && Bool.eqb (negz x) (negz y) = true -> x = y.
 Proof.
-  destruct x as [t1 i1 c1], y as [t2 i2 c2]. unfold num_eq. cbn [nt integral code]. intros H.
-  apply andb_prop in H as [H1 H2]. apply andb_prop in H2 as [H2 H3].
-  apply nty_eqb_eq in H1. apply Bool.eqb_prop in H2. apply Z.eqb_eq in H3. congruence.
+  destruct x as [t1 i1 c1 z1], y as [t2 i2 c2 z2]. unfold num_eq. cbn [nt integral code negz]. intros H.
+  apply andb_prop in H as [H H4]. apply andb_prop in H as [H1 H2]. apply andb_prop in H2 as [H2 H3].
+  apply nty_eqb_eq in H1. apply Bool.eqb_prop in H2. apply Z.eqb_eq in H3. apply Bool.eqb_prop in H4. congruence.
 Qed.
 
 (* equal keys are identical frozen values: a cache hit was compiled for exactly these arguments *)
-Theorem typed_keys_separate : forall a b, key_eq true a b = true -> a = b.
+Theorem typed_keys_separate : forall a b, key_eq ByTypeAndRepr a b = true -> a = b.
 Proof.
   induction a as [n|s| |l IH|l IH|i] using fv_ind'; intros [n2|s2| |l2|l2|i2] H; cbn [key_eq] in H; try discriminate.
   - f_equal. now apply num_typed_eq.
@@ -47,26 +47,26 @@ Section CacheMachine.
   Variable trace : fv -> O.                      (* what tracing + compilation makes of the frozen arguments *)
 
   Definition cache := list (fv * O).
-  Fixpoint lookup (typed : bool) (c : cache) (a : fv) : option O :=
+  Fixpoint lookup (typed : kmode) (c : cache) (a : fv) : option O :=
     match c with [] => None | (k, o) :: r => if key_eq typed k a then Some o else lookup typed r a end.
-  Definition call (typed : bool) (c : cache) (a : fv) : cache * O :=
+  Definition call (typed : kmode) (c : cache) (a : fv) : cache * O :=
     match lookup typed c a with Some o => (c, o) | None => ((a, trace a) :: c, trace a) end.
-  Fixpoint run (typed : bool) (c : cache) (h : list fv) : list O :=
+  Fixpoint run (typed : kmode) (c : cache) (h : list fv) : list O :=
     match h with [] => [] | a :: r => let '(c1, o) := call typed c a in o :: run typed c1 r end.
 
   Definition sound (c : cache) : Prop := forall k o, In (k, o) c -> o = trace k.
 
-  Lemma lookup_sound c a o : sound c -> lookup true c a = Some o -> o = trace a.
+  Lemma lookup_sound c a o : sound c -> lookup ByTypeAndRepr c a = Some o -> o = trace a.
   Proof.
-    induction c as [|[k o1] r IH]; intros Hs H; [discriminate|]. cbn [lookup] in H. destruct (key_eq true k a) eqn:E.
+    induction c as [|[k o1] r IH]; intros Hs H; [discriminate|]. cbn [lookup] in H. destruct (key_eq ByTypeAndRepr k a) eqn:E.
     - injection H as <-. apply typed_keys_separate in E. subst a. apply Hs. now left.
     - apply IH; [|exact H]. intros k2 o2 Hin. apply Hs. now right.
   Qed.
 
-  Theorem cache_transparent_for_every_history : forall h c, sound c -> run true c h = map trace h.
+  Theorem cache_transparent_for_every_history : forall h c, sound c -> run ByTypeAndRepr c h = map trace h.
   Proof.
     induction h as [|a r IH]; intros c Hs; [reflexivity|]. cbn [run map]. unfold call.
-    destruct (lookup true c a) as [o|] eqn:E.
+    destruct (lookup ByTypeAndRepr c a) as [o|] eqn:E.
     - rewrite (lookup_sound c a o Hs E). f_equal. now apply IH.
     - f_equal. apply IH. intros k o [H|H]; [injection H as <- <-; reflexivity|now apply Hs].
   Qed.
